@@ -59,6 +59,12 @@ pub struct Classified {
     pub fp_last: bool,
 }
 
+/// Does the library's default decoder (the one `StunClient` is built with) reject these bytes?
+pub fn lib_rejects(bytes: &[u8]) -> bool {
+    let b = bytes.to_vec();
+    crate::ctx::guarded(move || stun_rs::MessageDecoderBuilder::default().build().decode(&b).is_err()).unwrap_or(true)
+}
+
 pub fn classify(bytes: &[u8]) -> Option<Classified> {
     // like the decoder, look only at the 20 + length bytes the header declares
     let bytes = if bytes.len() >= 20 {
@@ -511,11 +517,11 @@ impl Cred {
         // Precondition of the credential oracles: a message the decoder accepts.  Bytes the
         // library reports as undecodable belong to the "undecodable buffer" class (C03/C17);
         // what they would have meant is not decided by C07/C08/C10.
-        if let OpResult::RecvErr(e) = res {
-            if e.contains("Failed to decode") {
-                ctx.count("recv.undecodable-skipped");
-                return;
-            }
+        // (Decided by running the decoder the client uses - the default one - on the same bytes,
+        // not by the text of the client's error, which is free to change.)
+        if matches!(res, OpResult::RecvErr(_)) && lib_rejects(bytes) {
+            ctx.count("recv.undecodable-skipped");
+            return;
         }
         let Some(c) = classify(bytes) else {
             ctx.count("recv.not-classifiable");
